@@ -239,3 +239,23 @@ def ray_scale(Ap, basep, lb, ub, b):
     if r.status != 0:
         return None
     return float(r.x[-1])
+
+
+def rows_sharing_a_solution(B, X, lb, ub, A=None):
+    """Index pairs (i, j), i < j, of rows with different targets whose returned intensity vectors are bit-identical although some
+    coordinate lies strictly inside its bounds.  Two different problems solved numerically do not end in the same bits (even targets
+    1e-12 apart give intensities 1e-13 apart), so such a pair means a result was copied from another row."""
+    B, X = np.asarray(B, dtype=float), np.asarray(X, dtype=float)
+    lb = np.broadcast_to(np.asarray(lb, dtype=float), X.shape[1:])
+    ub = np.broadcast_to(np.asarray(ub, dtype=float), X.shape[1:])
+    # "strictly inside": by more than the solvers' tolerance (an active bound is returned as bound -/+ 1e-9, identically for two rows)
+    rng = np.where(np.isfinite(ub - lb), ub - lb, 1.0)
+    out = []
+    for j in range(1, X.shape[0]):
+        for i in range(j):
+            inside = (X[j] > lb + 1e-6 * rng) & (X[j] < ub - 1e-6 * rng)
+            if A is not None:
+                inside = inside & (np.abs(np.asarray(A, dtype=float)).sum(axis=0) > 0)     # a source no receptor sees is free
+            if np.array_equal(X[i], X[j]) and not np.array_equal(B[i], B[j]) and np.any(inside):
+                out.append((i, j))
+    return out
